@@ -121,6 +121,7 @@ func init() {
 			p.NestedTargetBias = 0.35
 			p.MaxRoots = 6
 			p.W["dispose"] = 1
+			p.W["a.oob"] = 2 // re-attachment attempts at impossible positions (the offered container must survive)
 			p.W["a.set"] = 14
 			p.W["a.remove"] = 12
 			p.W["m.remove"] = 12
